@@ -102,22 +102,53 @@ class WrappedField:
             return get_type_hints(self.clazz.clazz)[self.field.name]
         except NameError:
             pass
-        # names that the module of the class does not define (imports under TYPE_CHECKING): the classes of the diagram
-        # first, then whatever loaded module has a class of that name. What the module defines itself stays what it is,
-        # also when the diagram holds another class of the same name.
-        module = sys.modules.get(self.clazz.clazz.__module__)
-        names_of_the_module = vars(module) if module is not None else {}
+        # A name that the annotations cannot resolve (an import under TYPE_CHECKING). The annotation of this field is
+        # resolved where it was written: in the module and the body of the class that declares the field (a subclass
+        # that inherits the field may live in another module). What they define stays what it is; for the names they
+        # do not define the classes of the diagram come first, then whatever loaded module has a class of that name.
+        declaring_class = next(
+            (
+                base
+                for base in self.clazz.clazz.__mro__
+                if self.field.name in vars(base).get("__annotations__", {})
+            ),
+            self.clazz.clazz,
+        )
+        module = sys.modules.get(declaring_class.__module__)
+        names_of_the_module = dict(vars(module)) if module is not None else {}
+        names_where_the_field_is_declared = {
+            **names_of_the_module,
+            **vars(declaring_class),
+        }
         class_diagram = self.clazz._class_diagram
         local_namespace = {
             cls.clazz.__name__: cls.clazz
             for cls in (class_diagram.wrapped_classes if class_diagram else [])
-            if cls.clazz.__name__ not in names_of_the_module
+            if cls.clazz.__name__ not in names_where_the_field_is_declared
         }
+        local_namespace.update(vars(declaring_class))
+        annotation_holder = type(
+            "AnnotationHolder",
+            (),
+            {
+                "__annotations__": {
+                    self.field.name: vars(declaring_class)["__annotations__"][
+                        self.field.name
+                    ]
+                    if self.field.name
+                    in vars(declaring_class).get("__annotations__", {})
+                    else self.field.type
+                },
+                "__module__": declaring_class.__module__,
+            },
+        )
         while True:
             try:
-                return get_type_hints(self.clazz.clazz, localns=local_namespace)[
-                    self.field.name
-                ]
+                return get_type_hints(
+                    annotation_holder,
+                    globalns=names_of_the_module,
+                    localns=local_namespace,
+                )[self.field.name]
             except NameError as e:
                 if e.name in local_namespace:
                     raise
